@@ -160,6 +160,13 @@ class _CacheServiceBase(Generic[CacheValueT]):
                 return obj
             except TypeError:
                 # Object is not hashable, convert it
+                if isinstance(obj, dict):
+                    # Keep the values: iterating a dict yields only its keys, so two
+                    # option sets that differ in a (nested) value would share a key
+                    return tuple(
+                        (_make_hashable(k), _make_hashable(v))
+                        for k, v in sorted(obj.items(), key=lambda kv: repr(kv[0]))
+                    )
                 if hasattr(obj, '__iter__') and not isinstance(obj, (str, bytes)):
                     # Convert iterables (like numpy arrays) to tuples
                     try:
